@@ -118,6 +118,21 @@ func runBuffered(c busCase, stats map[string]int) (err error) {
 			b.Connect(cycle)
 			connect()
 			justGot = -1
+		case "connect":
+			// the bus is connected again within the current cycle (the pipelines
+			// do so in their drain loops): what was put in this cycle stays invisible
+			// and nothing is lost
+			b.Connect(cycle)
+			connect()
+			justGot = -1
+		case "connectearly":
+			// ... or with an earlier cycle number
+			b.Connect(cycle - 1)
+			saved := cycle
+			cycle--
+			connect()
+			cycle = saved
+			justGot = -1
 		case "get":
 			v, ok := b.Get()
 			if ok != (len(queue) > 0) {
@@ -386,7 +401,7 @@ func init() {
 	})
 }
 
-var busOpNames = []string{"add", "add", "add", "tick", "tick", "get", "get", "pick", "revert", "dellast", "clean"}
+var busOpNames = []string{"add", "add", "add", "tick", "tick", "get", "get", "pick", "revert", "dellast", "clean", "connect", "connectearly"}
 
 func TestC14Buses(t *testing.T) {
 	h := hx.Begin(t, "C14", "random")
@@ -417,7 +432,7 @@ func TestC14Exhaustive(t *testing.T) {
 	if depth == 0 {
 		depth = 7
 	}
-	acts := []busOp{{Op: "add"}, {Op: "tick"}, {Op: "get"}, {Op: "pick", Arg: 0}, {Op: "pick", Arg: 1}, {Op: "revert"}, {Op: "dellast"}, {Op: "clean"}}
+	acts := []busOp{{Op: "add"}, {Op: "tick"}, {Op: "get"}, {Op: "pick", Arg: 0}, {Op: "pick", Arg: 1}, {Op: "revert"}, {Op: "dellast"}, {Op: "clean"}, {Op: "connect"}}
 	var n, nt int64
 	type geo struct {
 		kind    string
@@ -456,7 +471,7 @@ func TestC14Exhaustive(t *testing.T) {
 				return true
 			}
 			for _, a := range acts {
-				if g.kind == "simple" && (a.Op == "pick" || a.Op == "revert" || a.Op == "dellast" || a.Op == "tick") {
+				if g.kind == "simple" && (a.Op == "pick" || a.Op == "revert" || a.Op == "dellast" || a.Op == "tick" || a.Op == "connect") {
 					continue
 				}
 				ops = append(ops, a)
